@@ -50,6 +50,25 @@ CLAIMED = {
         technique="symbolic execution of the real functions + z3 VCs (two-row relational); structural contracts evaluated on the real code",
         note=LEVEL_NOTE_MODELS + "; polars rank/sort_by/over and SQL OVER/LAG/LEAD semantics are axioms",
     ),
+    "C13": dict(
+        text="Two parts. (proof) the loop contract of best_signature_match: the real loop body, cut from the source AST on every run, preserves the invariant `best_index is the first "
+        "argmin of the lexicographic distance` for a generic iteration, so the result is the first minimal index for candidate lists of any length; sig_distance is the "
+        "component-wise cost sum. (exhaustive evaluation, reported as bounded stand-ins) for all 96 operators and every argument tuple over a finite type universe "
+        "(all constructors x const; parameters of Decimal/String/Enum/List by region representatives) the real return_type / ColFn.dtype / get_impl are evaluated: no internal "
+        "error, declaration-order independence, sized-type uniformity, const acceptance / rejection, Tyvar-free results.",
+        design_ref="DESIGN.md §5.13",
+        technique="loop-invariant VCs on the extracted loop body (z3) + exhaustive evaluation of the real type checker over a finite type universe",
+        note="trusted: pdtv + z3 for the loop contract; CPython evaluation for the enumerations; type parameters are sampled (bounded), constructors and const-ness exhaustive; import-time tries are data",
+    ),
+    "C17": dict(
+        text="(proof, relative to the library models) for every accepted (source, target) pair of a representative set, the real Cast tree compiled by the real Polars / SQLite cast code "
+        "keeps null as null for all values, float->int truncates toward zero, bool->int is 0/1, int->float is exact, and the Polars expression is cast to the requested type. "
+        "(exhaustive evaluation, bounded stand-ins) acceptance == documented table, rejection is DataTypeError at construction, engine types exist for all accepted targets, "
+        "over the finite type universe.",
+        design_ref="DESIGN.md §5.17",
+        technique="symbolic execution of the real cast compilation + z3; exhaustive evaluation of Cast.__init__ over a finite type universe",
+        note=LEVEL_NOTE_MODELS + "; engine-native text formats are uninterpreted (only null-preservation decided)",
+    ),
 }
 
 NOT_YET = "check not built yet (engine under construction); will be claimed as soon as its obligations discharge"
